@@ -430,6 +430,11 @@ def skr_problems(xml_bytes: bytes, *, num_bundles: int | None = None, roles: lis
             req_bundles = rq.find("Request").findall("RequestBundle")
             if rq.get("id") != doc["id"] or rq.get("serial") != str(doc["serial"]) or rq.get("domain") != doc["domain"]:
                 bad.append("id / serial / domain of the request not echoed")
+            zp = rq.find("Request").find("RequestPolicy").find("ZSK")
+            for name, tag in (("publishSafety", "PublishSafety"), ("retireSafety", "RetireSafety"), ("maxSignatureValidity", "MaxSignatureValidity"), ("minSignatureValidity", "MinSignatureValidity"), ("maxValidityOverlap", "MaxValidityOverlap"), ("minValidityOverlap", "MinValidityOverlap")):
+                declared = duration_us(zp.find(tag).text)
+                if declared is not None and declared != doc["zskPolicy"][name]:
+                    bad.append(f"ZSK policy of the request not echoed: {tag} {doc['zskPolicy'][name]} us, the request declares {declared} us")
             if len(req_bundles) != len(doc["bundles"]):
                 bad.append(f"{len(doc['bundles'])} response bundles for {len(req_bundles)} request bundles")
                 req_bundles = None
